@@ -221,17 +221,45 @@ def check_c05(ctx):
         for s in range(1, n):
             for t in (0, 1):
                 cfgs.append(mkcfg("Multistage", max_n=n, ram=0, disk=s, traj=t))
-    cfgs += boxes.revolve_family(14 if q else 30, (1, 2, 3, 4, 5), boxes.COSTS6 if q else boxes.COSTS12,
+    cfgs += boxes.revolve_family(14 if q else 30, (1, 2, 3, 4, 5), boxes.COSTS8 if q else boxes.COSTS12,
                                  classes=("Revolve",))
     viols, cov = _steps_check(ctx, "C05", "bin", cfgs, sn, tn, hn, 0)
     return viols, cov, ["beyond the exhaustively searched box the Griewank-Walther theorem is assumed: "
                         "the check there is 'implementation = closed form = recurrence'"]
 
 
+def mixed_planner_scan(ctx, nmax, smax):
+    """TLC-guided selection for Mixed: the cost component of every planner entry (n, s) with
+    n <= nmax, s <= smax is compared with the mixed recurrence; entries that differ point at
+    configurations that are then recorded and decided like any other."""
+    record.lib()
+    try:
+        import checkpoint_schedules.mixed as mx
+    except Exception:
+        return [], 0
+    claims, meta = [], []
+    for n in range(2, nmax + 1):
+        for s in range(1, min(n - 1, smax) + 1):
+            for fn in ("mixed_step_memoization", "optimal_steps_mixed"):
+                try:
+                    v = getattr(mx, fn)(n, s)
+                    v = int(v[2]) if isinstance(v, tuple) else int(v)
+                except Exception:
+                    v = -1
+                claims.append({"kind": "mix", "n": n, "s": s, "v": v})
+                meta.append((n, s))
+    bad = tables(ctx, claims, nmax, smax)
+    return sorted({meta[b] for b in bad}), len(claims)
+
+
 def check_c06(ctx):
     q = ctx.tier == "quick"
     sn, tn, hn = (11, 40, 60) if q else (15, 80, 120)
     cfgs = boxes.mixed(tn)
+    suspects, scanned = mixed_planner_scan(ctx, 200 if q else 400, 20)
+    for n, s in suspects[:8]:
+        cfgs.append(mkcfg("Mixed", max_n=n, ram=s, st=1))
+        tn = max(tn, n)
     viols, cov = _steps_check(ctx, "C06", "mix", cfgs, sn, tn, hn, 1)
     # "this number does not depend on the chosen storage"
     return viols, cov, ["beyond the exhaustively searched box the recurrence of Maddison (2024) is "
